@@ -208,6 +208,22 @@ def strides(chk, repo):
     chk.ob("R17.3", T + ".parse_pdos.parse_eeprom", "each record is skipped "
            "where it was decoded", ok, pe, "header: once per PDO; entry: "
            "once per entry, inside the entry loop")
+    # padding entries (index 0) are part of the layout: the consumer
+    # advances its bit position by their length, so the producer has to
+    # hand over every entry it decodes
+    ys = [y for y in walk_no_nested(pe) if isinstance(y, ast.Yield)]
+    cond = []
+    for y in ys:
+        st_ = stmt_of(y)
+        for e_, t_ in path_facts(st_):
+            if not (isinstance(getattr(e_, "_parent", None), (
+                    ast.While, ast.For))):
+                cond.append(unparse(e_))
+    chk.ob("R17.3", T + ".parse_pdos.parse_eeprom", "every decoded entry is "
+           "yielded, padding entries included", bool(ys) and not cond,
+           ys[0] if ys else pe, f"the yield is conditional on {cond}: the "
+           f"bit position of everything behind a gap comes out too small"
+           if cond else "unconditional inside the entry loop")
     ent = find("range(e)", pe)
     chk.ob("R17.3", T + ".parse_pdos.parse_eeprom", "the entry loop runs "
            "over the header's entry count", len(ent) == 1, pe,
@@ -215,31 +231,59 @@ def strides(chk, repo):
 
 
 def modes(chk, repo):
+    """the sync-manager table, by abstract execution of
+    parse_sync_managers on packed records: every mode, sizes including 0
+    (a process-data sync manager has length 0 until the PDO mapping is
+    known), high nibble of the control byte set, every record order"""
+    import itertools
+    import struct as _struct
     sym = T + ".parse_sync_managers"
     f = repo.func(sym)
     chk.analysed(sym)
-    ok = bool(find("mode &= 15", f, mode="stmt"))
-    chk.ob("R17.4", sym, "the mode is the low nibble of the control byte",
-           ok, f, "mode &= 0xf")
-    want = {0: {"pdo_in_off": "offset", "pdo_in_sz": "size",
-                "pdo_in_addr": "2048 + i"},
-            2: {"mbx_in_off": "offset", "mbx_in_sz": "size"},
-            4: {"pdo_out_off": "offset", "pdo_out_sz": "size",
-                "pdo_out_addr": "2048 + i"},
-            6: {"mbx_out_off": "offset", "mbx_out_sz": "size"}}
-    table = {}
-    for s in walk_no_nested(f):
-        if isinstance(s, ast.If):
-            b = match("mode == $k", s.test)
-            if b is not None and int_const(b["k"]) is not None:
-                st = {}
-                for a in s.body:
-                    if isinstance(a, ast.Assign) and len(a.targets) == 1 \
-                            and is_self_attr(a.targets[0]):
-                        st[a.targets[0].attr] = unparse(a.value)
-                table[int_const(b["k"])] = st
+    tc = repo.cls(T)
+    recs = {6: (0x1000, 128), 2: (0x1080, 128), 4: (0x1100, 0),
+            0: (0x1180, 6)}
+    bad = []
+    rows = 0
+    for order in itertools.permutations((6, 2, 4, 0)):
+        for hi in (0x00, 0x20, 0x60):
+            data = b"".join(_struct.pack("<HHBBBB", recs[m][0], recs[m][1],
+                                         m | hi, 0, 1, 0) for m in order)
+            me = Obj(tc, {})
+            try:
+                Evaluator(repo, f._module, tc).call_function(
+                    f, [me, data], cls=tc)
+            except (Unknown, Raised) as e:
+                raise AnalysisError(f"{sym}: cannot be evaluated: {e}")
+            rows += 1
+            want = {"mbx_out_off": recs[6][0], "mbx_out_sz": recs[6][1],
+                    "mbx_in_off": recs[2][0], "mbx_in_sz": recs[2][1],
+                    "pdo_out_off": recs[4][0], "pdo_out_sz": recs[4][1],
+                    "pdo_in_off": recs[0][0], "pdo_in_sz": recs[0][1],
+                    "pdo_out_addr": 0x800 + 8 * order.index(4),
+                    "pdo_in_addr": 0x800 + 8 * order.index(0)}
+            got = {k: me.fields.get(k, "unset") for k in want}
+            if got != want and len(bad) < 4:
+                diff = {k: got[k] for k in want if got[k] != want[k]}
+                bad.append(f"records in order {order}, control byte | "
+                           f"{hi:#x}: {diff}")
     chk.ob("R17.4", sym, "mode table: 0 PDO in, 2 mailbox in, 4 PDO out, 6 "
-           "mailbox out", table == want, f, f"extracted {table}")
+           "mailbox out; mode = low nibble; offset, length (0 included) and "
+           "register address recorded", not bad, f,
+           "; ".join(bad[:2]) or f"{rows} record tables evaluated")
+    # mailbox only (no process data): the PDO side keeps its defaults
+    data = _struct.pack("<HHBBBB", 0x1000, 64, 0x26, 0, 1, 0) + \
+        _struct.pack("<HHBBBB", 0x1080, 64, 0x22, 0, 1, 0)
+    me = Obj(tc, {"pdo_in_off": 7, "mbx_in_off": 9})
+    try:
+        Evaluator(repo, f._module, tc).call_function(f, [me, data], cls=tc)
+    except (Unknown, Raised) as e:
+        raise AnalysisError(f"{sym}: cannot be evaluated: {e}")
+    ok = me.fields.get("pdo_in_off", 1) is None and me.fields.get(
+        "pdo_out_off", 1) is None and me.fields.get("pdo_in_sz", 1) is None
+    chk.ob("R17.4", sym, "sync managers that are not described are reset",
+           ok, f, "a second parse does not keep the previous terminal "
+           "description")
 
 
 def pdos(chk, repo):
